@@ -5,6 +5,11 @@ ROOT = os.path.dirname(os.path.dirname(os.path.abspath(__file__)))
 TECH = "contract-based deductive verification: sidecar contracts on the real functions, own VC generator over the repository's ast, z3/cvc5; counterexamples replayed on the real code"
 CHECKS = {
  # id: (category, text, note, design_ref)
+ "C01": ("proof", "the real prepare_suit_data / return_processed_binary_data executed symbolically on description shapes with symbolic leaves; every recorded digest is proved to be HASH(declared algorithm, wrapped bytes of the same envelope) for all leaf values, 5 algorithms per field, nesting", "shapes (which members are present) are enumerated, not quantified; hashes and cbor2 are assumed contracts; law A1 used to read the result", "DESIGN.md 3 C01"),
+ "C04": ("proof", "contracts on Signer.sign_envelope / already_signed_action / SuitKMS.sign: protected header, Sig_structure over the wrapped digest, one block appended, all other members identical, fixed-width r||s for all r, s; bounded real signing with independent verification beside it", "signature validity itself is the library's (assumed); plug-in loading assumed to yield the shipped scripts; CLI main covered by the bounded stand-in", "DESIGN.md 3 C04"),
+ "C08": ("proof", "finite vocabulary and key-space tables read from the executed class statements and compared completely with the pinned registry; the three lookups proved for a symbolic key over every closed key space", "the pinned registry (contracts/registry.py) is the oracle", "DESIGN.md 3 C08"),
+ "C09": ("other", "P: three actions on unsigned/singly-signed input, key-type x algorithm table, refusal before signing, dependency loading; B: recursive configuration trees to depth 3 with real keys", "RecursiveSigner.__init__/recursive_sign (recursion over a JSON tree) are covered by the bounded stand-in only", "DESIGN.md 3 C09"),
+ "C15": ("other", "P: curve-instance precondition, requested key kind, both files from the same key, fixed-width X||Y for all coordinates; B: 40 format combinations and the C-array formatting", "which combinations the library refuses and the text formatting loops are decided by running them (bounded)", "DESIGN.md 3 C15"),
  "C06": ("proof", "contracts on the real encryption chain (SuitKMS.encrypt .. cmd_encrypt.encrypt_and_generate/generate_info) discharged for all plaintexts, key ids and digests; bounded CLI round trip with independent decryption beside it", "AES-GCM, os.urandom, hashes, cbor2.dumps are assumed contracts (validated differentially); plug-in loading (importlib) assumed to yield the shipped scripts", "DESIGN.md 3 C06"),
  "C10": ("proof", "contracts on the real CachePartition functions discharged for all erase-block sizes, lengths and contents; bounded stand-in through main() beside it", "relative to the assumed contract of cbor2.dumps and lemmas L-float, L-div; merge/from_payloads loops covered by the bounded stand-in", "DESIGN.md 3 C10"),
  "C12": ("proof", "record layout and merged-area data flow proved for all names, policies, addresses, sizes and 0..8 input records", "IntelHex (partial-map operations and HEX file encoding), uuid5 and SHA-256 are assumed contracts", "DESIGN.md 3 C12"),
